@@ -5,6 +5,7 @@ CONSTANTS
   MaxCount = 2
   BadBytes = "BADBYTES"
   FailModes = {FALSE}
+  StrictModes = {FALSE}
 CONSTRAINT Bounded
 VIEW View
 INVARIANT RegIsBalance
